@@ -412,6 +412,9 @@ func (g *gen) del() { g.delShape(-1) }
 
 // toPopulation registers fresh descriptors / removes random connections until exactly n are live.
 func (g *gen) toPopulation(n int) {
+	if d := len(g.s.ref) - n; d > 1000 || d < -1000 {
+		return // too far: not worth a quadratic walk
+	}
 	for len(g.s.ref) < n && !g.s.failed && !g.s.dead {
 		g.add(g.freshFd())
 	}
@@ -617,7 +620,7 @@ func (g *gen) bigCase(n int, dels int) {
 		g.checkpoint(false)
 	}
 	if !s.failed && !s.dead {
-		b := len(s.ref) / gnet.VerifRegistryColMax * gnet.VerifRegistryColMax
+		b := (len(s.ref) + gnet.VerifRegistryColMax/2) / gnet.VerifRegistryColMax * gnet.VerifRegistryColMax // nearest row boundary
 		if b == 0 {
 			b = gnet.VerifRegistryColMax
 		}
